@@ -154,6 +154,11 @@ pub struct Model {
     pub unobserved_writes: BTreeSet<Hid>,
     pub was_necessary_ever: BTreeSet<Hid>,
     pub dropped_var_since_round: bool,
+    /// some handle (node, var, observer, memoised function) was dropped or disallowed since the
+    /// last completed stabilise
+    pub dropped_handle_since_round: bool,
+    /// value of the flag when the current round's propagation ended (handler-phase panics)
+    pub dropped_handle_since_round_prev: bool,
     pub new_obs_since_round: bool,
     pub any_noneq_cutoff: bool,
     pub memo_live: BTreeMap<(usize, i64), Hid>,
@@ -201,6 +206,8 @@ impl Model {
             unobserved_writes: BTreeSet::new(),
             was_necessary_ever: BTreeSet::new(),
             dropped_var_since_round: false,
+            dropped_handle_since_round: false,
+            dropped_handle_since_round_prev: false,
             new_obs_since_round: false,
             any_noneq_cutoff: false,
             memo_live: BTreeMap::new(),
@@ -422,6 +429,11 @@ impl Model {
     /// defining bind of a node in its cone necessary at that moment (the engine would hit its
     /// deliberate "defining bind is not necessary" panic). Generation guard only.
     pub fn can_end_observer(&self, oid: usize) -> bool {
+        // an observer that is already linked stays linked until the new observers of the next
+        // stabilise have been linked (the engine unlinks afterwards): ending it cannot starve them
+        if self.obs[oid].state == OState::InUse {
+            return true;
+        }
         for (i, o) in self.obs.iter().enumerate() {
             if i == oid || o.state != OState::Created {
                 continue;
